@@ -17,12 +17,18 @@
 #include <gmssl/asn1.h>
 #include <gmssl/error.h>
 #include <gmssl/endian.h>
+#include <gmssl/verif.h>
 
 
 static int all_zero(const uint8_t *buf, size_t len)
 {
 	size_t i;
-	for (i = 0; i < len; i++) {
+	for (i = 0; i < len; i++)
+	VERIF_LOOP_ASSIGNS(i)
+	VERIF_LOOP_INVARIANT(i <= len)
+	VERIF_LOOP_INVARIANT(verif_gk >= i || buf[verif_gk] == 0)
+	VERIF_LOOP_DECREASES(len - i)
+	{
 		if (buf[i]) {
 			return 0;
 		}
@@ -38,7 +44,14 @@ int sm2_kdf(const uint8_t *in, size_t inlen, size_t outlen, uint8_t *out)
 	uint32_t counter = 1;
 	size_t len;
 
-	while (outlen) {
+	while (outlen)
+	VERIF_LOOP_ASSIGNS(counter, outlen, out, len, VERIF_OBJ_WHOLE(counter_be), VERIF_OBJ_WHOLE(dgst), ctx, VERIF_OBJ_WHOLE(out))
+	VERIF_LOOP_INVARIANT(outlen <= VERIF_LOOP_ENTRY(outlen))
+	VERIF_LOOP_INVARIANT(out == VERIF_LOOP_ENTRY(out) + (VERIF_LOOP_ENTRY(outlen) - outlen))
+	VERIF_LOOP_INVARIANT(outlen == 0 || (VERIF_LOOP_ENTRY(outlen) - outlen) % 32 == 0)
+	VERIF_LOOP_INVARIANT(counter == 1 + (VERIF_LOOP_ENTRY(outlen) - outlen + 31) / 32)
+	VERIF_LOOP_DECREASES(outlen)
+	{
 		PUTU32(counter_be, counter);
 		counter++;
 
